@@ -55,7 +55,10 @@ pgp_signed = re.compile(r"""
 
     (^-{5}BEGIN\ PGP\ SIGNED\ MESSAGE-{5}(?:\r?\n)
        (Hash:\ (?P<hashes>[A-Za-z0-9\-,]+)(?:\r?\n){2})?
-       (?P<cleartext>(.*\r?\n)*(.*(?=\r?\n-{5})))(?:\r?\n)
+       # each line is matched in one way only: nested quantifiers such as
+       # (.*\r?\n)* match a CRLF line in two ways and take exponential time
+       # on a text whose signature block does not match
+       (?P<cleartext>(?:[^\n]*\n)*(?:.*(?=\r?\n-{5})))(?:\r?\n)
     )?
 
     # Armor header line: capture the variable part of the magic text
@@ -65,7 +68,10 @@ pgp_signed = re.compile(r"""
     # Try to capture all the headers into one capture group.
     # If this doesn't match, m['headers'] will be None
 
-    (?P<headers>(^.+:\ .+(?:\r?\n))+)?(?:\r?\n)?
+    # A header line has some text, a colon and a space and some text: it is
+    # split at the first such colon (same lines as "^.+:\ .+" but one way only)
+
+    (?P<headers>(?:^[^\n](?:(?!:\ )[^\n])*:\ [^\n]+\n)+)?(?:\r?\n)?
 
     # capture all lines of the body, up to 76 characters long, including the
     # newline, and the pad character(s)
